@@ -644,6 +644,8 @@ type renderer struct {
 	tgtName func(i int) string
 	tblName func(i int) string
 	chkLine string
+	nmods     int // modify scopes rendered so far
+	splitMods int // of those, written as one `modify` directive per table
 }
 
 func (r *renderer) line(ind int, format string, a ...any) {
@@ -656,8 +658,20 @@ func (r *renderer) mods(ind int, m *mods) {
 	if m == nil {
 		return
 	}
-	r.line(ind, "modify {")
+	// Several `modify` directives in one scope are concatenated in order (docs: "modify blocks"),
+	// so a scope with two tables is written alternately as one block and as one block per table.
+	r.nmods++
+	split := len(m.tables) >= 2 && r.nmods%2 == 1
+	if split {
+		r.splitMods++
+	}
+	if !split {
+		r.line(ind, "modify {")
+	}
 	for _, t := range m.tables {
+		if split {
+			r.line(ind, "modify {")
+		}
 		name := "replace_rcpt"
 		if t.sender {
 			name = "replace_sender"
@@ -680,8 +694,13 @@ func (r *renderer) mods(ind int, m *mods) {
 			r.line(ind+2, "%s", strings.Join(parts, " "))
 		}
 		r.line(ind+1, "}")
+		if split {
+			r.line(ind, "}")
+		}
 	}
-	r.line(ind, "}")
+	if !split {
+		r.line(ind, "}")
+	}
 }
 
 func (r *renderer) chk(ind int, has bool) {
